@@ -14,6 +14,45 @@ def _mk_app(e, blur):
     return REAL_APPNS(None, None, blur, False, e.sym_str("app"), True)
 
 
+def _kernel_replayer(which, rows_spec, when, pruned, B, u):
+    """replay script: concrete side rows / time / flag / interval and the values the symbolic run predicts"""
+    def replayer(dec):
+        from sx.engine import conc
+        rows = []
+        for spec in rows_spec:
+            d = {}
+            for k, (nullbit, val, kind) in spec.items():
+                if nullbit is not None and dec.num(nullbit):
+                    d[k] = None
+                elif kind == "s":
+                    d[k] = dec.string(val)
+                else:
+                    v = dec.num(val)
+                    d[k] = float(v) if not isinstance(v, int) else v
+            rows.append(d)
+        def fv(x):
+            if x is None:
+                return None
+            v = conc(dec, x)
+            return float(v) if hasattr(v, "numerator") and not isinstance(v, (int, bool)) else v
+        pred = dict(started=fv(u.started), waiting_time=fv(u.waiting_time), total_time=fv(u.total_time), result=fv(u.result))
+        w = dec.num(when.z)
+        return dict(kind="kernel", which=which, rows=rows, when=float(w) if not isinstance(w, int) else w,
+                    pruned=bool(dec.num(pruned)), blur=(dec.num(B.z) if B is not None else None), predicted=pred)
+    return replayer
+
+
+def run_kernel_script(sc):
+    import wormhole_mailbox_server.server as S_
+    app = REAL_APPNS(None, None, sc["blur"], False, "app", True)
+    fn = app._summarize_mailbox if sc["which"] == "mailbox" else app._summarize_nameplate_usage
+    try:
+        u = fn(sc["rows"], sc["when"], sc["pruned"])
+        return dict(started=u.started, waiting_time=u.waiting_time, total_time=u.total_time, result=u.result)
+    except Exception as ex:
+        return dict(exc=type(ex).__name__)
+
+
 def _field(v):
     """(nullbit, term) of a returned Usage field"""
     if v is None:
@@ -31,7 +70,7 @@ def kernel_summarize_mailbox(e, n=3, blur="none"):
         B = e.sym_int("blur")
         e.assume(z3.And(B.z >= 1, B.z <= 86400))
     app = _mk_app(e, B)
-    rows, ref_rows = [], []
+    rows, ref_rows, specs = [], [], []
     kinds = dict(mailbox_id="s", opened="i", side="s", added="r", mood="s")
     for i in range(n):
         added = e.sym_real("added%d" % i)
@@ -40,6 +79,7 @@ def kernel_summarize_mailbox(e, n=3, blur="none"):
         nulls = {k: F for k in vals}
         nulls["mood"] = mood_null
         rows.append(RowView(None, vals, nulls, list(vals), kinds))
+        specs.append(dict(added=(None, added.z, "r"), mood=(mood_null, mood.z, "s")))
         ref_rows.append((T, added.z, Or(mood_null, mood.z == Z("")), mood.z))
     when = e.sym_real("when")
     pruned = e.sym_bool("pruned")
@@ -52,7 +92,7 @@ def kernel_summarize_mailbox(e, n=3, blur="none"):
     A["C15.total"] = Z(u.total_time) == ref["total"]
     A["C15.started"] = Z(u.started) == ref["started"]
     A["C16.started"] = A["C15.started"]
-    return PathResult(A, info=dict(n=n))
+    return PathResult(A, info=dict(n=n), replayer=_kernel_replayer("mailbox", specs, when, pruned, B, u))
 
 
 @obligation("kernel.summarize_nameplate")
@@ -62,12 +102,13 @@ def kernel_summarize_nameplate(e, n=3, blur="none"):
         B = e.sym_int("blur")
         e.assume(z3.And(B.z >= 1, B.z <= 86400))
     app = _mk_app(e, B)
-    rows, ref_rows = [], []
+    rows, ref_rows, specs = [], [], []
     kinds = dict(nameplates_id="i", claimed="i", side="s", added="r")
     for i in range(n):
         added = e.sym_real("added%d" % i)
         vals = dict(nameplates_id=z3.IntVal(1), claimed=z3.IntVal(0), side=e.sym_str("side%d" % i).z, added=added.z)
         rows.append(RowView(None, vals, {k: F for k in vals}, list(vals), kinds))
+        specs.append(dict(added=(None, added.z, "r")))
         ref_rows.append((T, added.z))
     when = e.sym_real("when")
     pruned = e.sym_bool("pruned")
@@ -80,7 +121,7 @@ def kernel_summarize_nameplate(e, n=3, blur="none"):
     A["C15.total"] = Z(u.total_time) == ref["total"]
     A["C15.started"] = Z(u.started) == ref["started"]
     A["C16.started"] = A["C15.started"]
-    return PathResult(A, info=dict(n=n))
+    return PathResult(A, info=dict(n=n), replayer=_kernel_replayer("nameplate", specs, when, pruned, B, u))
 
 
 @obligation("kernel.blur")
